@@ -397,6 +397,12 @@ def instances(tier):
         perms = list(itertools.permutations(range(K)))
         for cols in itertools.product(perms, repeat=F):
             out.append(inline_instance(K, F, T, np.array(cols).T))
+    # the call sites inside the EM loops: what the next M-step receives is the E-step's posterior *and* quadratic form, both
+    # reordered by the one mapping the aligner returned for the posteriors (3-cycle: not an involution)
+    from .c08 import alternation_instance
+    out.append(alternation_instance('cacgmm', 3, aligner=True, K=3, prop='C14'))
+    out.append(alternation_instance('cacgmm', 2, aligner=True, from_model=True, prop='C14'))
+    out.append(alternation_instance('cwmm', 3, aligner=True, K=3, prop='C14'))
     out.append(integration_pa_instance(2, 1, 1))
     out.append(integration_pa_bounded_instance())
     out.append(assignment_extremes_bounded_instance())
